@@ -709,6 +709,7 @@ def fold_programs(rng: random.Random, n: int):
         ("hyb_both1", "{ int32_t q = RsV; int32_t j = RtV; int32_t k = 7; ReV = (1 ? q++ : j++) + k++; RddV = (int64_t) q * 65536 + j * 256 + k; }"),
         ("hyb_calls", "{ int32_t q = RsV; ReV = (0 ? clz32(q) : clo32(q)) + clz32(RtV) * 64 + revbit32(q); }"),
         ("hyb_then_se", "{ int32_t q = RsV; int32_t j = RtV; ReV = (0 ? q++ : j++); RxV = (RtV > 0) ? ({ q = q + 4; q; }) : j; RddV = (int64_t) q * 256 + j; }"),
+        ("se_cond_dead", "{ RddV = 1 ? RuuV : ((RtV > 2) ? ({ RxV = RtV + 5; RxV; }) : RsV); }"),
         ("hyb_nested", "{ int32_t q = RsV; int32_t j = RtV; ReV = (0 ? (1 ? q++ : j++) : (0 ? q-- : j--)) + q++; RddV = (int64_t) q * 256 + j; }"),
     ]
     for nm, text in dead:
